@@ -17,7 +17,7 @@ RULE = ('cases = generated single-connection programs mixing modifications, obje
         'set is stored and a fresh connection reads the final states with every reference resolving; after abort nothing is '
         'stored; the observer never sees uncommitted data; evaluations = steps; non-trivial = >= 2 rollbacks of which one '
         'targets a savepoint already rolled back to or preceding a later savepoint, with an object created in between; '
-        'distinct by program hash')
+        'distinct by program hash; later additions: blob programs (25%), interrupted commits (20%), phased savepoints taken after a rollback over objects of equal record size, a second connection saving blobs of its own')
 ASSUMPTIONS = ['objects disowned by a rollback/abort after having been stored in a savepoint are not used again by the program '
                '(the statement promises un-adding, not re-addability; re-adding after abort is C11)',
                'blob writes inside savepoints are exercised in C13']
